@@ -164,7 +164,21 @@ def admin_guard(prog, crate):
             and is_sender(t[2][2])
         )
 
-    return Guard("admin", subject=subj)
+    def boolean(t):
+        # boolean spellings of the same test: ADMIN.is_admin(deps, &info.sender)? / .unwrap_or(false) /
+        # ADMIN.assert_admin(deps, &info.sender).is_ok() / .is_err()
+        x = t
+        if x[0] == "call" and x[1] == "std::result::Result::unwrap_or" and len(x[2]) == 2 and x[2][1] == ("const", "bool", False):
+            x = x[2][0]
+        while x[0] in ("payload", "trybranch"):
+            x = x[1]
+        if x[0] == "call" and x[1] == "cw_controllers::Admin::is_admin" and ns_of(prog, x[2][0]) == "admin" and item_crate(x[2][0]) == crate and len(x[2]) >= 3 and is_sender(x[2][2]):
+            return True
+        if t[0] == "call" and t[1] in ("std::result::Result::is_ok", "std::result::Result::is_err") and t[2] and subj(t[2][0]):
+            return t[1].endswith("is_ok")
+        return None
+
+    return Guard("admin", subject=subj, boolean=boolean)
 
 
 def handlers(prog, crate, entry="execute", enum="ExecuteMsg"):
